@@ -18,6 +18,8 @@ package main
 //   once      without resume no tile is written twice
 // and the same three for the pread64 calls of the sender on the source path when the transfer
 // ran without resume (with resume the sender also hashes chunks for verification).
+// A second oracle (c19reads.go) judges the span of every pread64 of every traced case, including
+// interrupted-then-resumed histories run in the same child, whatever the outcome of the transfer.
 // The harness prepares sources and destinations with write(2), so the only positional calls on
 // those paths are the code's own.
 
@@ -37,6 +39,7 @@ import (
 	"time"
 
 	"github.com/sheerbytes/sheerbytes/internal/transfer"
+	"github.com/sheerbytes/sheerbytes/internal/verifhook"
 	vk "github.com/sheerbytes/sheerbytes/internal/verifkit"
 )
 
@@ -64,6 +67,7 @@ type c19WResult struct {
 	ChunkSize map[string]uint32   `json:"filebegin_chunk_size"`
 	Claimed   map[string][]uint32 `json:"chunks_declared_complete"`
 	OutputOK  map[string]bool     `json:"output_equals_source"`
+	FirstRun  bool                `json:"first_run_left_the_chosen_chunks"` // cases with an interrupted first run (c19reads.go)
 }
 
 // c19WritesChild: verifharness c19writes-child <spec.json> <result.json>
@@ -81,6 +85,20 @@ func c19WritesChild(args []string) int {
 	}
 	h := &c19Hist{R: vk.NewReport("c19writes-child", "child", "quick", 0), work: spec.Work, obs: map[string]int{}, notObs: map[string]int{}, viol: map[string]int{}}
 	results := make([]c19WResult, len(spec.Cases))
+	// the interrupted first runs of the traced resume histories (c19reads.go) wait for this hook
+	verifhook.Set("recv.chunk.afterMark", func(ev verifhook.Event) {
+		if v, ok := h.marks.Load(ev.A); ok {
+			mk := v.(*c19Marks)
+			mk.mu.Lock()
+			mk.set[uint32(ev.B)] = true
+			mk.mu.Unlock()
+			select {
+			case mk.ch <- struct{}{}:
+			default:
+			}
+		}
+	})
+	defer verifhook.Set("recv.chunk.afterMark", nil)
 	vk.ParallelDo(len(spec.Cases), 4, func(i int) {
 		c := spec.Cases[i]
 		base := filepath.Join(spec.Work, fmt.Sprintf("w%05d", c.ID))
@@ -96,6 +114,11 @@ func c19WritesChild(args []string) int {
 		}
 		res.Prepared = true
 		c.Transport = "mock"
+		if c.Partial != nil {
+			if res.FirstRun = h.firstRun(c, m, res.Out); !res.FirstRun {
+				return
+			}
+		}
 		r := h.transferRun(c, nil, m, res.Src, res.Out)
 		transfer.VerifRetireSidecars(res.Out)
 		res.BothOK, res.Watchdog = r.bothOK(), r.watchdog
@@ -148,7 +171,8 @@ func c19WritesChild(args []string) int {
 	return 0
 }
 
-type c19Interval struct{ off, n int64 }
+// c19Interval is one positional call: offset, bytes transferred (return value), bytes requested.
+type c19Interval struct{ off, n, req int64 }
 
 var c19TraceRe = regexp.MustCompile(`^(pwrite64|pread64)\((\d+)<([^>]*)>, "[^"]*"(?:\.\.\.)?, (\d+), (\d+)\)\s+= (-?\d+)`)
 
@@ -196,10 +220,11 @@ func c19ParseTrace(path string) (writes, reads map[string][]c19Interval, lines i
 		if ret <= 0 {
 			continue
 		}
+		req, _ := strconv.ParseInt(mm[4], 10, 64)
 		if mm[1] == "pwrite64" {
-			writes[mm[3]] = append(writes[mm[3]], c19Interval{off, ret})
+			writes[mm[3]] = append(writes[mm[3]], c19Interval{off, ret, req})
 		} else {
-			reads[mm[3]] = append(reads[mm[3]], c19Interval{off, ret})
+			reads[mm[3]] = append(reads[mm[3]], c19Interval{off, ret, req})
 		}
 	}
 	return writes, reads, lines, sc.Err()
@@ -289,7 +314,10 @@ func runC19Writes(e *Env) {
 		}
 	}
 	specPath, resPath, tracePath := filepath.Join(work, "spec.json"), filepath.Join(work, "result.json"), filepath.Join(work, "trace.log")
-	raw, _ := json.Marshal(c19WSpec{Work: work, Cases: cases})
+	// interrupted-then-resumed histories (c19reads.go); they follow the cases above in the child's list
+	resumeCases := c19GenTracedResumes(vk.NewRng(base^vk.HashStr("traced-resume")), len(cases), e.Pick(40, 200))
+	all := append(append([]c19Case{}, cases...), resumeCases...)
+	raw, _ := json.Marshal(c19WSpec{Work: work, Cases: all})
 	if os.WriteFile(specPath, raw, 0644) != nil {
 		R.Inconcl("cannot write the case list")
 		R.Require(false, "no case list")
@@ -328,7 +356,7 @@ func runC19Writes(e *Env) {
 	vk.Logf("c19writes traced child done after %.1fs", time.Since(t0).Seconds())
 	var results []c19WResult
 	raw, _ = os.ReadFile(resPath)
-	if json.Unmarshal(raw, &results) != nil || len(results) != len(cases) {
+	if json.Unmarshal(raw, &results) != nil || len(results) != len(all) {
 		R.Inconcl("the traced child's result file is unreadable")
 		R.Require(false, "no results")
 		return
@@ -340,6 +368,9 @@ func runC19Writes(e *Env) {
 		return
 	}
 	R.SetExtra("trace_lines", lines)
+
+	// ---- oracle: no positional read is longer than the chunk it starts (all traced cases, whatever their outcome) ----
+	c19JudgeReads(R, all, results, reads, len(cases), count, obs, viol)
 
 	// ---- oracle ----
 	for i, c := range cases {
@@ -426,7 +457,8 @@ func runC19Writes(e *Env) {
 		}
 	}
 	R.SetExtra("cases_planned", len(cases))
-	R.SetExtra("not_covered", "mock transport only; interrupted/resumed histories are not traced (their first run is inspected on disk in stage history); with resume on, the sender's reads are not judged (verification hashing reads chunks too)")
+	R.SetExtra("cases_planned_interrupted_then_resumed", len(resumeCases))
+	R.SetExtra("not_covered", "mock transport only; the interrupted-then-resumed histories that are traced keep their chunk size (a changed chunk size discards the recorded chunks, stage history); with resume on, the sender's reads are judged for their span (offset on a chunk boundary, at most the chunk long) but not for cover / once (verification hashing reads chunks too)")
 
 	R.Require(obs["double-success"] >= len(cases)*2/3, fmt.Sprintf("only %d of %d traced transfers were double successes", obs["double-success"], len(cases)))
 	R.Require(obs["pwrite64-calls-on-output-files"] >= 10*len(cases), fmt.Sprintf("only %d pwrite64 calls on output files in the trace", obs["pwrite64-calls-on-output-files"]))
